@@ -60,4 +60,19 @@ def op_client_surface(o):
     return res
 
 
-OPS = {"proto_classes": op_proto_classes, "client_surface": op_client_surface}
+def op_package_exports(o):
+    """{"package": "pkg"} -> for every name in the package's __all__ that is bound to a class: where that class is
+    defined (module, __name__) — what `from pkg import X` really hands out"""
+    try:
+        M = importlib.import_module(o["package"])
+    except BaseException as e:  # noqa
+        return {"raised": exc_name(e), "msg": str(e)[:300]}
+    out = {}
+    for n in getattr(M, "__all__", []):
+        v = getattr(M, n, None)
+        if isinstance(v, type):
+            out[n] = [v.__module__, v.__name__]
+    return {"exports": out, "all": sorted(getattr(M, "__all__", []))}
+
+
+OPS = {"proto_classes": op_proto_classes, "client_surface": op_client_surface, "package_exports": op_package_exports}
